@@ -602,6 +602,15 @@ fn c03_sequence(ctx: &mut Ctx, r: &mut Rng, outcomes: &[bool], ep_fixed: Option<
                 t if t.starts_with("user:") => Val::UserErr,
                 _ => gen_val(r, kind, tt, true, true),
             }
+        } else if tt.starts_with("Vec<") && r.chance(1, 40) {
+            // a packed list whose line is far larger than any datagram (70-200 KB): still one call, one string
+            let n = r.range(3600, 9000) as usize;
+            ctx.rep.obs("packed_lists_rendering_to_more_than_64_KiB", 1);
+            match tt {
+                "Vec<u64>" => Val::VU64((0..n).map(|i| u64::MAX - i as u64).collect()),
+                "Vec<f64>" => Val::VF64((0..n).map(|i| -1.0e300 / (i as f64 + 1.5)).collect()),
+                _ => Val::VDur((0..n).map(|i| std::time::Duration::new(18_446_744_073 - i as u64, 709_551_615)).collect()),
+            }
         } else {
             gen_val(r, kind, tt, false, true)
         };
